@@ -202,6 +202,31 @@ def check_no_decoration_time_switch(ctx, tag="C19.1"):
                     construct=f"decoration-time read of {frozen}")
     else:
         ctx.ok(tag, jt.qualname, "neither switch is read in the decorator's own (decoration-time) scope")
+    # ... nor when a hooked module is imported / a cell is instrumented: code that was compiled un-instrumented while the switch was
+    # on stays un-instrumented (and is cached as such) when the switch is turned off again
+    n_fn = 0
+    for f in m.all_functions(include_typeguard=False):
+        if f.module.short not in ("_import_hook", "_ipython_extension", "_pytest_plugin"):
+            continue
+        n_fn += 1
+        for n in ast.walk(f.node):
+            if isinstance(n, ast.Attribute) and isinstance(n.ctx, ast.Load) and n.attr == "jaxtyping_disable":
+                ctx.bad(tag, f, n, "`config.jaxtyping_disable` is consulted when a hooked module is imported / instrumented, not when its functions are called: a module "
+                        "imported while checking was off is never decorated (and its un-instrumented bytecode is cached under the hook's tag), so switching back on "
+                        "does not restore checking", construct="import-time read of config.jaxtyping_disable")
+    for ms in ("_import_hook", "_ipython_extension", "_pytest_plugin"):
+        mod_ = m.modules.get(ms)
+        if mod_ is None:
+            continue
+        for st in mod_.tree.body:
+            if isinstance(st, (ast.FunctionDef, ast.AsyncFunctionDef, ast.ClassDef)):
+                continue
+            for n in ast.walk(st):
+                if isinstance(n, ast.Attribute) and isinstance(n.ctx, ast.Load) and n.attr == "jaxtyping_disable":
+                    ctx.bad(tag, (mod_.relpath, mod_.qualname), n, "`config.jaxtyping_disable` is read when the hook module itself is imported: the decision is frozen for the process",
+                            construct="module-level read of config.jaxtyping_disable")
+    ctx.counters["instrumentation_functions_scanned"] = n_fn
+    ctx.floor(tag, "instrumentation_functions_scanned", 10)
 
 
 def _check_wrapper_guards(ctx, r, ws):
@@ -525,6 +550,22 @@ def check_wiring(ctx, r):
                                 construct=f"{lazy.name}: reloads jaxtyping_disable from the environment")
                     elif not (isinstance(k, ast.Name) and k.id == item_p):
                         raise AnalysisError(f"C19.3: `{short(c, 50)}` inside {lazy.name}: which setting is (re)loaded is not interpreted")
+    # the switches are process-wide: `config.update(...)` made on one thread governs calls made on every thread (a worker pool, a
+    # data loader).  A per-thread / per-context store (threading.local base, ContextVar fields) would make the toggle invisible there.
+    for b_ in cls.node.bases:
+        bt = norm(b_)
+        if bt.split(".")[-1] in ("local", "_local") or "threading" in bt:
+            ctx.bad("C19.4", (cfgmod.relpath, cfgmod.qualname), cls.node, f"the config object is a `{bt}`: config.update('jaxtyping_disable', ...) only affects the thread that "
+                    "called it; a decorated function called on another thread (thread pool, data loader) keeps checking / keeps not checking",
+                    construct="_JaxtypingConfig derives from threading.local")
+        elif bt != "object":
+            raise AnalysisError(f"C19.4: _JaxtypingConfig derives from `{bt}`; whether its attributes are process-wide is not known")
+    ctxvars = [n_ for n_ in ast.walk(cfgmod.tree) if isinstance(n_, ast.Call) and norm(n_.func).split(".")[-1] in ("ContextVar", "local")]
+    if ctxvars:
+        ctx.bad("C19.4", (cfgmod.relpath, cfgmod.qualname), ctxvars[0], f"the switches are kept in `{short(ctxvars[0], 50)}`: a toggle is only visible in the thread / context that made it",
+                construct="per-thread / per-context switch storage")
+    elif not any(fd.rule == "C19.4" for fd in ctx.findings):
+        ctx.ok("C19.4", cls.qualname, "the switches are plain attributes of one module-level object: a toggle is visible to every thread")
     init = need(cls.methods.get("__init__"), "_JaxtypingConfig.__init__ not found")
     upd = need(cls.methods.get("update"), "_JaxtypingConfig.update not found")
     ctx.saw(init)
